@@ -134,6 +134,10 @@ def task_yaml(t, root):
         L += ["- set_vars:", "    %s: %s" % (m[1], lit_yaml(m[2]))]
     elif k == 'assert':
         L += ["- assert:", "    that:"] + ["      - " + q(expr_j(e)) for e in m[1]]
+    elif k == 'command' and m[3] >= 1000:
+        # the command dies from a signal (m[3] - 1000): no exit code at all - a failure like any other
+        cmd = "printf '%%s' '%s'; echo %s >> %s/log; kill -%d $$" % (m[2], m[1], root, m[3] - 1000)
+        L += ["- command:", "    cmd: " + q(cmd)]
     elif k == 'command':
         cmd = "printf '%%s' '%s'; echo %s >> %s/log; exit %d" % (m[2], m[1], root, m[3])
         L += ["- command:", "    cmd: " + q(cmd)]
